@@ -1,0 +1,79 @@
+//go:build verif && vectors
+// +build verif,vectors
+
+package zap
+
+import (
+	"sync/atomic"
+	"time"
+)
+
+func verifVecCache(seg interface{}) *vectorIndexCache {
+	switch s := seg.(type) {
+	case *Segment:
+		return s.vecIndexCache
+	case *SegmentBase:
+		return s.vecIndexCache
+	}
+	return nil
+}
+
+// VerifVecCacheExpire runs one expiry pass of the segment's vector index
+// cache synchronously - exactly what one tick of the monitor goroutine does -
+// and returns how many entries it evicted and how many remain.
+func VerifVecCacheExpire(seg interface{}) (evicted int, remaining int) {
+	vc := verifVecCache(seg)
+	if vc == nil {
+		return 0, 0
+	}
+	vc.m.RLock()
+	before := len(vc.cache)
+	vc.m.RUnlock()
+	vc.cleanup()
+	vc.m.RLock()
+	remaining = len(vc.cache)
+	vc.m.RUnlock()
+	return before - remaining, remaining
+}
+
+// VerifVecCacheLen returns the number of cached vector indexes of a segment.
+func VerifVecCacheLen(seg interface{}) int {
+	vc := verifVecCache(seg)
+	if vc == nil {
+		return 0
+	}
+	vc.m.RLock()
+	defer vc.m.RUnlock()
+	return len(vc.cache)
+}
+
+// VerifVecCacheRefs returns (refs, true) of the cache entry of a field, or
+// (0, false) when the field's index is not cached.
+func VerifVecCacheRefs(seg interface{}, field string) (int64, bool) {
+	vc := verifVecCache(seg)
+	if vc == nil {
+		return 0, false
+	}
+	var sb *SegmentBase
+	switch s := seg.(type) {
+	case *Segment:
+		sb = &s.SegmentBase
+	case *SegmentBase:
+		sb = s
+	}
+	vc.m.RLock()
+	defer vc.m.RUnlock()
+	entry, ok := vc.cache[sb.fieldsMap[field]]
+	if !ok {
+		return 0, false
+	}
+	return atomic.LoadInt64(&entry.refs), true
+}
+
+// VerifSetVecMonitorFreq sets the period of the cache monitor goroutines that
+// are started from now on and returns the previous value.
+func VerifSetVecMonitorFreq(d time.Duration) time.Duration {
+	old := monitorFreq
+	monitorFreq = d
+	return old
+}
